@@ -52,7 +52,8 @@ claim('C01',
       'the map of that name (W2); the theta length allocated for each (option, real/complex, flag) is the same exact polynomial in '
       'dim, rank as the length the functional accepts for that field (W3); no dtype test is constantly false (K3); the ball map '
       'theta*h(r) has norm r*h(r) < 1 for EVERY theta, decided exactly on the polynomial den - r*num (RB1); in the 7 batched maps no operation combines arrays whose batch axis sits '
-      'at different broadcast positions (SH1 shape inference); NumPy and PyTorch arms '
+      'at different broadcast positions (SH1 shape inference) and every Euler-recursion reshape has the '
+      'asked number of columns for every admissible block width incl. rank==dim (SH2); NumPy and PyTorch arms '
       'of 18 functional maps are the same computation (B1). Membership for the other manifolds (unit norm, PSD, X^dagger X = I, '
       'simplex, interval) for all theta is value-level and NOT decided.',
       'Trusted: role table {cayley_order->order, euler_with_phase->with_phase}; exact polynomial arithmetic over Q with //2 rewritten '
